@@ -228,4 +228,223 @@ theorem links_consistent_exec_thresholded {m : Pomdp} {vf : VF} (hz : ZeroBelow 
     execReturn m vf h id b = dot m.S b (val (entry vf h id)) :=
   links_consistent_exec (consistent_exact_of_zeroBelow hz hc) h id b hh hid
 
+/-! ## findBestAtPoint / Policy::sampleAction(b, h) -/
+
+theorem bestScan_spec (S : Nat) (b : Nat → Rat) (l : VList) :
+    ∀ (rest : List VEntry) (i best : Nat) (bv : Rat) (pre : List VEntry),
+      l = pre ++ rest → i = pre.length → best < i → bv = dot S b (val (entryAt l best)) →
+      (∀ j, j < i → dot S b (val (entryAt l j)) ≤ bv) →
+      (bestScan S b l rest i best bv).1 < l.length ∧
+      (bestScan S b l rest i best bv).2 = dot S b (val (entryAt l (bestScan S b l rest i best bv).1)) ∧
+      ∀ j, j < l.length → dot S b (val (entryAt l j)) ≤ (bestScan S b l rest i best bv).2 := by
+  intro rest
+  induction rest with
+  | nil =>
+    intro i best bv pre hl hi hb hbv hall
+    have hlen : l.length = i := by rw [hl, hi]; simp
+    simp only [bestScan]
+    exact ⟨by omega, hbv, fun j hj => hall j (by omega)⟩
+  | cons e rest ih =>
+    intro i best bv pre hl hi hb hbv hall
+    have hei : entryAt l i = e := by
+      unfold entryAt; rw [hl, hi]; simp
+    simp only [bestScan]
+    split
+    · rename_i hc
+      have hlt : bv ≤ dot S b (val e) := by
+        rcases Bool.or_eq_true _ _ |>.mp hc with h1 | h1
+        · exact le_of_lt (by simpa using h1)
+        · have := (Bool.and_eq_true _ _ |>.mp h1).1
+          have h2 : dot S b (val e) = bv := by simpa using this
+          exact le_of_eq h2.symm
+      apply ih (i+1) i (dot S b (val e)) (pre ++ [e]) (by rw [hl]; simp) (by rw [hi]; simp) (by omega) (by rw [hei])
+      intro j hj
+      rcases Nat.lt_succ_iff_lt_or_eq.mp hj with h1 | h1
+      · exact le_trans (hall j h1) hlt
+      · subst h1; rw [hei]
+    · rename_i hc
+      have hle : dot S b (val e) ≤ bv := by
+        by_contra hcon
+        apply hc
+        have : bv < dot S b (val e) := not_le.mp hcon
+        simp [this]
+      apply ih (i+1) best bv (pre ++ [e]) (by rw [hl]; simp) (by rw [hi]; simp) (by omega) hbv
+      intro j hj
+      rcases Nat.lt_succ_iff_lt_or_eq.mp hj with h1 | h1
+      · exact hall j h1
+      · subst h1; rw [hei]; exact hle
+
+/-- the modelled `findBestAtPoint` returns an index in range whose value is the maximum over the whole list -/
+theorem bestAtPoint_spec (S : Nat) (b : Nat → Rat) (l : VList) (hne : l ≠ []) :
+    (bestAtPoint S b l).1 < l.length ∧
+    (bestAtPoint S b l).2 = dot S b (val (entryAt l (bestAtPoint S b l).1)) ∧
+    ∀ j, j < l.length → dot S b (val (entryAt l j)) ≤ (bestAtPoint S b l).2 := by
+  cases l with
+  | nil => exact absurd rfl hne
+  | cons e rest =>
+    simp only [bestAtPoint]
+    apply bestScan_spec S b (e :: rest) rest 1 0 _ [e] rfl rfl (by omega) (by simp [entryAt])
+    intro j hj
+    have : j = 0 := by omega
+    subst this; simp [entryAt]
+
+theorem envV_eq_of_max (S : Nat) (l : VList) (b : Nat → Rat) (id : Nat) (hid : id < l.length)
+    (hmax : ∀ j, j < l.length → dot S b (val (entryAt l j)) ≤ dot S b (val (entryAt l id))) :
+    envV S l b = dot S b (val (entryAt l id)) := by
+  unfold envV
+  apply le_antisymm
+  · exact maxTo_le _ _ (by omega) hmax
+  · exact le_maxTo (fun id => dot S b (val (entryAt l id))) hid
+
+/-- **sampleAction_attains_envelope** (first reading of "the first action attains the maximum").
+    `Policy::sampleAction(b, h)` returns an id in range, the action stored in that entry, that entry is a maximiser of
+    `b·values` over the horizon's list, and executing from it earns exactly the envelope value `max_id b·values`. -/
+theorem sampleAction_attains_envelope {m : Pomdp} {vf : VF} (hc : ConsistentExact m vf)
+    (h : Nat) (b : Nat → Rat) (hh : h < vf.length) (hne : vlist vf h ≠ []) :
+    (sampleActionB m vf b h).2 < (vlist vf h).length ∧
+    (sampleActionB m vf b h).1 = (entry vf h (sampleActionB m vf b h).2).action ∧
+    (∀ j, j < (vlist vf h).length →
+        dot m.S b (val (entry vf h j)) ≤ dot m.S b (val (entry vf h (sampleActionB m vf b h).2))) ∧
+    execReturn m vf h (sampleActionB m vf b h).2 b = envV m.S (vlist vf h) b := by
+  obtain ⟨h1, h2, h3⟩ := bestAtPoint_spec m.S b (vlist vf h) hne
+  have hmax : ∀ j, j < (vlist vf h).length →
+      dot m.S b (val (entryAt (vlist vf h) j)) ≤ dot m.S b (val (entryAt (vlist vf h) (bestAtPoint m.S b (vlist vf h)).1)) := by
+    intro j hj; rw [← h2]; exact h3 j hj
+  refine ⟨h1, rfl, hmax, ?_⟩
+  show execReturn m vf h (bestAtPoint m.S b (vlist vf h)).1 b = envV m.S (vlist vf h) b
+  rw [links_consistent_exec hc h _ b hh h1]
+  exact (envV_eq_of_max m.S (vlist vf h) b _ h1 hmax).symm
+
+/-! ## Policy::sampleAction(id, o, h) along every observation history -/
+
+/-- every step of a replay lands on an entry that exists, and reports that entry's action -/
+def FollowOK (vf : VF) : Nat → List (Nat × Nat) → Prop
+  | _, [] => True
+  | 0, _ :: _ => False
+  | h+1, r :: rest => r.2 < (vlist vf h).length ∧ r.1 = (entry vf h r.2).action ∧ FollowOK vf h rest
+
+/-- **links_in_range_all_histories.**  With every link in range, the replay of EVERY observation history (any
+    length, observations `< O`) from any existing entry stays inside the stored lists at every step, so every call
+    `Policy::sampleAction(id, o, h)` made along it has its precondition; the range-checked and the raw model agree. -/
+theorem follow_in_range {step} {m : Pomdp} {vf : VF} (hc : ConsistentW step m vf) :
+    ∀ (h id : Nat) (os : List Nat), h < vf.length → id < (vlist vf h).length → (∀ o ∈ os, o < m.O) →
+      FollowOK vf h (follow vf h id os) ∧ (follow vf h id os).length = min h os.length := by
+  intro h
+  induction h with
+  | zero => intro id os _ _ _; simp [follow, FollowOK]
+  | succ h ih =>
+    intro id os hh hid hos
+    cases os with
+    | nil => simp [follow, FollowOK]
+    | cons o os =>
+      have ok := hc h hh id hid
+      have ho : o < m.O := hos o (List.mem_cons_self ..)
+      have hl := ok.link_lt o ho
+      obtain ⟨i1, i2⟩ := ih (link (entry vf (h+1) id) o) os (by omega) hl (fun o' ho' => hos o' (List.mem_cons_of_mem _ ho'))
+      simp only [follow, sampleActionIdO, List.length_cons]
+      refine ⟨⟨hl, rfl, i1⟩, ?_⟩
+      rw [i2]; omega
+
+theorem sampleActionIdO_defined {step} {m : Pomdp} {vf : VF} (hc : ConsistentW step m vf)
+    (h id o : Nat) (hh : h + 1 < vf.length) (hid : id < (vlist vf (h+1)).length) (ho : o < m.O) :
+    sampleActionIdO? vf id o h = some (sampleActionIdO vf id o h) := by
+  have ok := hc h hh id hid
+  have hl := ok.link_lt o ho
+  unfold sampleActionIdO? sampleActionIdO
+  rw [if_pos ⟨hid, by rw [ok.obs_len]; exact ho⟩]
+  simp only []
+  rw [if_pos hl]
+
+/-! ## the first action and the look-ahead / the optimal value -/
+
+theorem execReturn_succ (m : Pomdp) (vf : VF) (h id : Nat) (b : Nat → Rat) :
+    execReturn m vf (h+1) id b = rewardB m b (entry vf (h+1) id).action +
+      m.disc * sumTo m.O (fun o => execReturn m vf h (link (entry vf (h+1) id) o) (tau m b (entry vf (h+1) id).action o)) := rfl
+
+/-- a plan's promised value never exceeds the one-step look-ahead of its own action on the previous envelope -/
+theorem plan_le_lookahead {m : Pomdp} {vf : VF} (hc : ConsistentExact m vf) (hd : 0 ≤ m.disc)
+    (h id : Nat) (b : Nat → Rat) (hh : h + 1 < vf.length) (hid : id < (vlist vf (h+1)).length) :
+    dot m.S b (val (entry vf (h+1) id)) ≤ qVF m (vlist vf h) b (entry vf (h+1) id).action := by
+  have ok := hc h hh id hid
+  have hsum : sumTo m.O (fun o => execReturn m vf h (link (entry vf (h+1) id) o) (tau m b (entry vf (h+1) id).action o))
+      ≤ sumTo m.O (fun o => envV m.S (vlist vf h) (tau m b (entry vf (h+1) id).action o)) := by
+    apply sumTo_le
+    intro o ho
+    have hl := ok.link_lt o ho
+    have e1 := links_consistent_exec hc h (link (entry vf (h+1) id) o) (tau m b (entry vf (h+1) id).action o) (by omega) hl
+    have e2 : dot m.S (tau m b (entry vf (h+1) id).action o) (val (entry vf h (link (entry vf (h+1) id) o)))
+        ≤ envV m.S (vlist vf h) (tau m b (entry vf (h+1) id).action o) := by
+      unfold envV entry
+      exact le_maxTo (fun j => dot m.S (tau m b (entryAt (vlist vf (h+1)) id).action o) (val (entryAt (vlist vf h) j))) hl
+    show execReturn m vf h (link (entry vf (h+1) id) o) (tau m b (entry vf (h+1) id).action o) ≤ _
+    rw [e1]; exact e2
+  have e0 := links_consistent_exec hc (h+1) id b hh hid
+  rw [execReturn_succ] at e0
+  rw [← e0]
+  unfold qVF
+  exact add_le_add (le_refl _) (mul_le_mul_of_nonneg_left hsum hd)
+
+/-- **first_action_attains** (second reading).  If at `b` the horizon-`h+1` list is closed under the one-step backup
+    of the horizon-`h` list (the envelope property of an exact solver, C02), then the action returned by
+    `Policy::sampleAction(b, h+1)` maximises the `(h+1)`-step Q-value `R(b,a) + γ Σ_o V_h(τ(b,a,o))`. -/
+theorem first_action_attains {m : Pomdp} {vf : VF} (hc : ConsistentExact m vf) (hd : 0 ≤ m.disc)
+    (h : Nat) (b : Nat → Rat) (hh : h + 1 < vf.length) (hne : vlist vf (h+1) ≠ [])
+    (hclosed : ∀ a, a < m.A → qVF m (vlist vf h) b a ≤ envV m.S (vlist vf (h+1)) b) :
+    (sampleActionB m vf b (h+1)).1 < m.A ∧
+    ∀ a, a < m.A → qVF m (vlist vf h) b a ≤ qVF m (vlist vf h) b (sampleActionB m vf b (h+1)).1 := by
+  obtain ⟨h1, h2, h3, h4⟩ := sampleAction_attains_envelope hc (h+1) b hh hne
+  have ok := hc h hh _ h1
+  refine ⟨by rw [h2]; exact ok.action_lt, ?_⟩
+  intro a ha
+  calc qVF m (vlist vf h) b a ≤ envV m.S (vlist vf (h+1)) b := hclosed a ha
+    _ = execReturn m vf (h+1) (sampleActionB m vf b (h+1)).2 b := h4.symm
+    _ = dot m.S b (val (entry vf (h+1) (sampleActionB m vf b (h+1)).2)) := links_consistent_exec hc _ _ b hh h1
+    _ ≤ qVF m (vlist vf h) b (entry vf (h+1) (sampleActionB m vf b (h+1)).2).action := plan_le_lookahead hc hd h _ b hh h1
+    _ = qVF m (vlist vf h) b (sampleActionB m vf b (h+1)).1 := by rw [h2]
+
+/-- any stored plan, executed from any belief, earns at most the finite-horizon optimal value
+    (links in range and actions `< A` suffice; the values stored in the entries are irrelevant here) -/
+theorem exec_le_optimal {step} {m : Pomdp} {vf : VF} (hc : ConsistentW step m vf) (hd : 0 ≤ m.disc)
+    (term : (Nat → Rat) → Rat)
+    (hterm : ∀ id, id < (vlist vf 0).length → ∀ b, dot m.S b (val (entry vf 0 id)) ≤ term b) :
+    ∀ (h id : Nat) (b : Nat → Rat), h < vf.length → id < (vlist vf h).length →
+      execReturn m vf h id b ≤ optV m term h b := by
+  intro h
+  induction h with
+  | zero => intro id b _ hid; simpa [execReturn, optV] using hterm id hid b
+  | succ h ih =>
+    intro id b hh hid
+    have ok := hc h hh id hid
+    rw [execReturn_succ]
+    have hq : rewardB m b (entry vf (h+1) id).action +
+        m.disc * sumTo m.O (fun o => execReturn m vf h (link (entry vf (h+1) id) o) (tau m b (entry vf (h+1) id).action o))
+        ≤ optQ m term h b (entry vf (h+1) id).action := by
+      unfold optQ
+      refine add_le_add (le_refl _) ?_
+      apply mul_le_mul_of_nonneg_left _ hd
+      apply sumTo_le
+      intro o ho
+      exact ih _ _ (by omega) (ok.link_lt o ho)
+    exact le_trans hq (le_maxTo (fun a => optQ m term h b a) ok.action_lt)
+
+/-- **first_action_optimal.**  Where the stored envelope equals the optimal value (C02), the first action of the
+    policy attains the maximum of the OPTIMAL `(h+1)`-step Q-function. -/
+theorem first_action_optimal {m : Pomdp} {vf : VF} (hc : ConsistentExact m vf) (hd : 0 ≤ m.disc)
+    (term : (Nat → Rat) → Rat)
+    (hterm : ∀ id, id < (vlist vf 0).length → ∀ b, dot m.S b (val (entry vf 0 id)) ≤ term b)
+    (h : Nat) (b : Nat → Rat) (hh : h + 1 < vf.length) (hne : vlist vf (h+1) ≠ [])
+    (henv : envV m.S (vlist vf (h+1)) b = optV m term (h+1) b) :
+    optQ m term h b (sampleActionB m vf b (h+1)).1 = optV m term (h+1) b := by
+  obtain ⟨h1, h2, _, h4⟩ := sampleAction_attains_envelope hc (h+1) b hh hne
+  have ok := hc h hh _ h1
+  apply le_antisymm
+  · exact le_maxTo (fun a => optQ m term h b a) (by rw [h2]; exact ok.action_lt)
+  · rw [← henv, ← h4, execReturn_succ, h2]
+    unfold optQ
+    refine add_le_add (le_refl _) ?_
+    apply mul_le_mul_of_nonneg_left _ hd
+    apply sumTo_le
+    intro o ho
+    exact exec_le_optimal hc hd term hterm h _ _ (by omega) (ok.link_lt o ho)
+
 end AITB.Plan
